@@ -63,6 +63,10 @@ struct Options
   bool allow_spurious    = true;
   unsigned quantum       = 64;      // fairness: a thread that ran this many consecutive points while
                                     // others are runnable is switched out (spin loops make progress)
+  uint64_t timer_slack_ns = 0;      // wake-up latency: when time advances to the earliest deadline D, every timed
+                                    // waiter whose deadline lies within [D, D + slack] wakes at the same instant
+                                    // (virtual time = the latest of those deadlines, so nobody wakes EARLY); the
+                                    // schedule then decides who runs first.  0 = only the earliest waiter wakes.
 };
 
 enum class End
@@ -412,6 +416,26 @@ private:
         f.what += ")";
         fatal_(f);
         std::abort();
+      }
+      if (opt_.timer_slack_ns)
+      {
+        // a real scheduler does not order two timers that expire within microseconds of each other
+        const uint64_t horizon = best->deadline + opt_.timer_slack_ns;
+        uint64_t latest        = best->deadline;
+        for (auto &t : threads_)
+          if (t->st == LThread::BLOCKED && t->timed && t->deadline <= horizon && t->deadline > latest)
+            latest = t->deadline;
+        if (latest > now_ns_)
+          now_ns_ = latest;
+        for (auto &t : threads_)
+          if (t->st == LThread::BLOCKED && t->timed && t->deadline <= horizon)
+          {
+            t->st         = LThread::RUN;
+            t->waiting_on = nullptr;
+            t->timed      = false;
+            t->timed_out  = true;
+          }
+        continue;
       }
       if (best->deadline > now_ns_)
         now_ns_ = best->deadline;
